@@ -128,8 +128,16 @@ def _scenario(spec, rnd, d, logdir, res):
                                 stdout_stream={'stream': Collector('stdout', sink)},
                                 stderr_stream={'stream': Collector('stderr', sink)},
                                 copy_env=True, graceful_timeout=1, loop=loop))
-    sib = Watcher('sib', live.PY, args=['-S', live.WORKER, json.dumps({'log': logdir, 'out': {
-        'stdout': [[64, 5]] * 50, 'stderr': [[7, 5]] * 50}})], numprocesses=2,
+    # a writer whose watcher captures stderr only (stdout goes wherever the daemon's goes)
+    eo_script = [[rnd.choice(SIZES[:6]), rnd.choice([0, 1, 5])] for _ in range(60)]
+    watchers.append(Watcher('wr_eo', live.PY, args=['-S', live.WORKER, json.dumps({
+        'log': logdir, 'out': {'stdout': [[7, 5]] * 5, 'stderr': eo_script}})], numprocesses=1,
+        stderr_stream={'stream': Collector('stderr', sink)}, copy_env=True, graceful_timeout=1, loop=loop))
+    scripts.append({'stdout': None, 'stderr': eo_script})
+    # the sibling's workers either obey the stop signal or sit out the grace period (SIGKILL escalation)
+    sib_stubborn = spec['idx'] % 2 == 0
+    sib = Watcher('sib', live.PY, args=['-S', live.WORKER, json.dumps(dict({'log': logdir, 'out': {
+        'stdout': [[64, 5]] * 50, 'stderr': [[7, 5]] * 50}}, **({'ignore': [15]} if sib_stubborn else {})))], numprocesses=2,
         stdout_stream={'stream': Collector('stdout', sink)}, stderr_stream={'stream': Collector('stderr', sink)},
         copy_env=True, graceful_timeout=0.5, loop=loop)
     # a worker that exits by itself while a helper child still holds its pipes open; its successor
@@ -143,8 +151,19 @@ def _scenario(spec, rnd, d, logdir, res):
             'then': {'out': {'stdout': dy_script['stdout'], 'stderr': dy_script['stderr']}}})], numprocesses=1,
             stdout_stream={'stream': Collector('stdout', sink)}, stderr_stream={'stream': Collector('stderr', sink)},
             copy_env=True, graceful_timeout=0.5, loop=loop))
-    arb = Arbiter(watchers + [sib] + dys, 'ipc://%s/ctl' % d, 'ipc://%s/pub' % d, check_delay=0.2, context=ctx, loop=loop)
     info = {'fds': {}}
+    # observation only: a pipe of a new worker that cannot be registered because the loop still holds a handler for
+    # that descriptor number (left over from a worker that is gone)
+    orig_add_handler = loop.add_handler
+
+    def add_handler(fd, handler, events):
+        try:
+            return orig_add_handler(fd, handler, events)
+        except ValueError as e:
+            info.setdefault('add_handler_errors', []).append(str(e)[:80])
+            raise
+    loop.add_handler = add_handler
+    arb = Arbiter(watchers + [sib] + dys, 'ipc://%s/ctl' % d, 'ipc://%s/pub' % d, check_delay=0.2, context=ctx, loop=loop)
 
     def nfds():
         return len(os.listdir('/proc/self/fd'))
@@ -200,7 +219,14 @@ def _scenario(spec, rnd, d, logdir, res):
                 # does): from now on its output belongs to the new stream, the old one is closed
                 wsw = watchers[0]
                 for ch in ('stdout', 'stderr'):
-                    wsw.set_opt('%s_stream.stream' % ch, Collector(ch, sink, late))
+                    for attempt in range(100):
+                        try:
+                            wsw.set_opt('%s_stream.stream' % ch, Collector(ch, sink, late))
+                            break
+                        except Exception as e:      # refused while the periodic check holds the slot: try again
+                            if type(e).__name__ != 'ConflictError':
+                                raise
+                            yield gen.sleep(0.02)
                 info['switched'] = wsw.name
             act = rnd.choice(['restart', 'reload', 'kill9', 'restart'])
             try:
@@ -269,7 +295,7 @@ def _scenario(spec, rnd, d, logdir, res):
     writers = info.get('writers', {})
     # ---- compare byte for byte
     for i, sc in enumerate(scripts):
-        name = 'wr%d' % i
+        name = 'wr%d' % i if sc['stdout'] is not None else 'wr_eo'
         pid = writers.get(name)
         if pid is None:
             continue
@@ -277,6 +303,8 @@ def _scenario(spec, rnd, d, logdir, res):
             res.obs['writers_restarted_meanwhile(not judged)'] += 1
             continue
         for ch in ('stdout', 'stderr'):
+            if sc[ch] is None:
+                continue
             want = b''.join(record(pid, ch, seq, size) for seq, (size, _) in enumerate(sc[ch]))
             got = b''.join(sink.get((pid, ch, ch), []))
             res.obs['streams_compared'] += 1
@@ -309,6 +337,12 @@ def _scenario(spec, rnd, d, logdir, res):
                       'restart/reload of the sibling watcher raised %s (%d such failures in %d generations): a descriptor '
                       'of a dead worker is still registered with the loop when its number is reused'
                       % (msg, len(info['sib_errors']), spec['gens']))
+    for msg in info.get('add_handler_errors', [])[:1]:
+        res.violation('C17/new-worker-pipe-not-watched[stale-handler-for-reused-descriptor]',
+                      'registering the pipe of a freshly spawned worker failed with %r (%d times): a handler of a worker '
+                      'that is gone is still registered for that descriptor number, the new worker\'s output is not '
+                      'captured (sibling workers ignore the stop signal: %s)' % (msg, len(info['add_handler_errors']), sib_stubborn))
+    res.obs['scenarios_with_stubborn_sibling'] += int(sib_stubborn)
     # the respawned successor of the worker that died by itself
     for pid in info.get('dy_pids', []):
         if not os.path.exists(os.path.join(logdir, '%d.written.stdout' % pid)):
@@ -353,7 +387,7 @@ def _scenario(spec, rnd, d, logdir, res):
         if b - a > 6:
             res.violation('C17/descriptor-leak-per-generation', '/proc/self/fd went from %d (generation 10) to %d '
                           '(generation %d)' % (a, b, max(fds)))
-    res.sample = {'writers': nwriters, 'records_per_channel': [len(s_['stdout']) for s_ in scripts],
+    res.sample = {'writers': nwriters, 'records_per_channel': [len(s_['stderr']) for s_ in scripts],
                   'sibling_generations': spec['gens'], 'bytes_compared': res.obs.get('bytes_compared', 0)}
 
 
